@@ -220,6 +220,12 @@ func corrC02(c *corrCtx) {
 			c.emit("color/linearise-translucent", fmt.Sprintf("col %s linearise %x %x %x %x", s.name, px[0], px[1], px[2], a), wordsHex(lo))
 		}
 	}
+	// colours of every dynamic Go type through EncodeColor (the encoder must not depend on the type)
+	ntc := 260
+	if c.thorough() {
+		ntc = 2000
+	}
+	typedColourCases(c, "C02", false, ntc)
 	// clause (d) on the real code, per table entry: the code for index i lies within half a code
 	// (+ the float32 representation allowance) of OETF over the bucket [i-½, i+½]/N
 	const eta = 1.0 / (1 << 20)
@@ -597,6 +603,68 @@ func corrC14(c *corrCtx) {
 			}
 		}
 	}
+	// the alpha a converter writes is round(alpha*max): every bucket boundary (k+1/2)/max of the 16-bit
+	// converters and of the 8-bit ones, two float32 values either side, and the last 400 float32 values
+	// below 1 and first 400 above 0 — off the grid of alphas an image can hold, where a tolerance or a
+	// snap would sit.  |written - alpha*max| <= 1/2 (+ the float32 rounding of the product and the sum).
+	for i := range spaces {
+		s := &spaces[i]
+		white := [3]float32{1, 1, 1}
+		type conv struct {
+			name string
+			max  int
+			f    func(al float32) uint32
+		}
+		convs := []conv{
+			{"torgba64", 65535, func(al float32) uint32 { return uint32(s.toRGBA64(white, al).A) }},
+			{"tolin64", 65535, func(al float32) uint32 { return uint32(s.toLinRGBA64(white, al).A) }},
+			{"tonrgba", 255, func(al float32) uint32 { return uint32(s.toNRGBA(white, al).A) }},
+			{"torgba", 255, func(al float32) uint32 { return uint32(s.toRGBA(white, al).A) }},
+		}
+		for _, cv := range convs {
+			try := func(class string, al float32, sample bool) {
+				got := cv.f(al)
+				exact := float64(al) * float64(cv.max)
+				if d := math.Abs(float64(got) - exact); d > 0.5+float64(cv.max)/(1<<24) {
+					c.direct(fmt.Sprintf("C14/alpha-rounding/%s/%s/%08x", s.name, cv.name, fb(al)), "the alpha written is not round(alpha*max): it is more than half a code away from alpha*max",
+						map[string]interface{}{"space": s.name, "converter": cv.name, "alpha": al, "alpha_bits": fmt.Sprintf("%08x", fb(al)), "written": got, "alpha_times_max": exact})
+				}
+				c.stats["alpha-boundary/"+cv.name]++
+				if sample {
+					var out string
+					switch cv.name {
+					case "torgba64":
+						p := s.toRGBA64(white, al)
+						out = fmt.Sprintf("%08x %08x %08x %08x", p.R, p.G, p.B, p.A)
+					case "tolin64":
+						p := s.toLinRGBA64(white, al)
+						out = fmt.Sprintf("%08x %08x %08x %08x", p.R, p.G, p.B, p.A)
+					case "tonrgba":
+						p := s.toNRGBA(white, al)
+						out = fmt.Sprintf("%08x %08x %08x %08x", p.R, p.G, p.B, p.A)
+					default:
+						p := s.toRGBA(white, al)
+						out = fmt.Sprintf("%08x %08x %08x %08x", p.R, p.G, p.B, p.A)
+					}
+					c.emit("alpha-boundary/"+cv.name, fmt.Sprintf("col %s %s %08x %08x %08x %08x", s.name, cv.name, fb(1), fb(1), fb(1), fb(al)), out)
+				}
+			}
+			for k := 0; k < cv.max; k++ {
+				if cv.max == 65535 && !c.thorough() && k%5 != i && k > 64 && k < 65535-64 {
+					continue
+				}
+				x0 := float32((float64(k) + 0.5) / float64(cv.max))
+				for d := -2; d <= 2; d++ {
+					try("boundary", bf(uint32(int(fb(x0))+d)), k%1021 == 0 || k >= cv.max-2)
+				}
+			}
+			for j := 1; j <= 400; j++ {
+				try("below-one", bf(0x3f800000-uint32(j)), j%40 == 0)
+				try("above-zero", bf(uint32(j)), j%100 == 0)
+				try("above-zero", float32(j)*1e-8, j%100 == 0)
+			}
+		}
+	}
 	// every dynamic colour type through the generic constructors, all alphas
 	nt := 150
 	if c.thorough() {
@@ -880,6 +948,33 @@ func corrC03(c *corrCtx) {
 					}
 					c.emit("xyz/"+dir+"/"+mode, fmt.Sprintf("xyzb %s %s %s %x %x %x", s.name, dir, mode, start, cnt, step), fmt.Sprintf("%016x", h.h))
 				}
+			}
+		}
+		// "is the linear map", at every magnitude (HDR, scene-referred and intermediate values are far
+		// outside [0, 1]): homogeneous under powers of two within the property's proportional error
+		// (2e-6 times the magnitude) — the same matrix applies at 2^e * c as at c
+		nm := 300
+		if c.thorough() {
+			nm = 20000
+		}
+		for k := 0; k < nm; k++ {
+			p := [3]float32{float32(3*r.f64() - 1), float32(3*r.f64() - 1), float32(3*r.f64() - 1)}
+			e := r.pick(3, 4, 5, 6, 8, 10, 16, 24, 40, -8, -20)
+			sc := float32(math.Ldexp(1, e))
+			ps := [3]float32{p[0] * sc, p[1] * sc, p[2] * sc}
+			x, xs := s.toXYZ(p), s.toXYZ(ps)
+			c.emit("xyz/magnitude", fmt.Sprintf("col %s toxyz %08x %08x %08x 0", s.name, fb(ps[0]), fb(ps[1]), fb(ps[2])), fmt.Sprintf("%08x %08x %08x", fb(xs.X), fb(xs.Y), fb(xs.Z)))
+			tolm := 2e-6 * float64(sc) * math.Max(1, math.Max(math.Abs(float64(p[0])), math.Max(math.Abs(float64(p[1])), math.Abs(float64(p[2])))))
+			far := func(a, b float32) bool { return !(math.Abs(float64(a)-float64(b)) <= tolm) }
+			if far(xs.X, x.X*sc) || far(xs.Y, x.Y*sc) || far(xs.Z, x.Z*sc) {
+				c.direct(fmt.Sprintf("C03/homogeneous/%s/2^%d/%08x%08x%08x", s.name, e, fb(p[0]), fb(p[1]), fb(p[2])), "ToXYZ is not the (one) linear map at every magnitude: ToXYZ(2^e * c) differs from 2^e * ToXYZ(c) by more than the proportional error 2e-6",
+					map[string]interface{}{"space": s.name, "c": p, "e": e, "ToXYZ(c)": []float32{x.X, x.Y, x.Z}, "ToXYZ(2^e*c)": []float32{xs.X, xs.Y, xs.Z}})
+			}
+			b, bs := s.fromXYZ(ciexyz.Color{X: p[0], Y: p[1], Z: p[2]}), s.fromXYZ(ciexyz.Color{X: ps[0], Y: ps[1], Z: ps[2]})
+			c.emit("xyz/magnitude-from", fmt.Sprintf("col %s fromxyz %08x %08x %08x 0", s.name, fb(ps[0]), fb(ps[1]), fb(ps[2])), fmt.Sprintf("%08x %08x %08x", fb(bs[0]), fb(bs[1]), fb(bs[2])))
+			if far(bs[0], b[0]*sc) || far(bs[1], b[1]*sc) || far(bs[2], b[2]*sc) {
+				c.direct(fmt.Sprintf("C03/homogeneous-from/%s/2^%d/%08x%08x%08x", s.name, e, fb(p[0]), fb(p[1]), fb(p[2])), "ColorFromXYZ is not the (one) linear map at every magnitude: FromXYZ(2^e * c) differs from 2^e * FromXYZ(c) by more than the proportional error 2e-6",
+					map[string]interface{}{"space": s.name, "c": p, "e": e, "FromXYZ(c)": b, "FromXYZ(2^e*c)": bs})
 			}
 		}
 		// histories: each conversion right after one of a colour sharing two, one or no components with
